@@ -164,8 +164,8 @@ func RegisterUpcast[From any, To any](bus *EventBus, upcast func(From) To) error
 		return fmt.Errorf("eventbus: upcast function cannot be nil")
 	}
 
-	fromType := reflect.TypeOf((*From)(nil)).Elem().String()
-	toType := reflect.TypeOf((*To)(nil)).Elem().String()
+	fromType := eventTypeNameOf(reflect.TypeOf((*From)(nil)).Elem())
+	toType := eventTypeNameOf(reflect.TypeOf((*To)(nil)).Elem())
 
 	upcastFunc := func(data json.RawMessage) (json.RawMessage, string, error) {
 		var from From
